@@ -614,7 +614,7 @@ class OraclesMixin:
         digest = sha(canon[rep0])
         for rep in canon:
             if rep == "sqlite" and probes and self.c08_cause(m, op) != "other":
-                # open finding K-01: in this state the number of rows SQLite returns depends on
+                # defect X-42 (K-01, repaired): in this state the number of rows SQLite returns depends on
                 # whether the SELECT list contains an aggregate - and the probe columns add one. The
                 # probed export is then not comparable with a later plain export (O10.2).
                 self.stats["k01_state_digest_not_recorded"] += 1
